@@ -519,6 +519,28 @@ def rule_json_path(ctx, rid="R6.7"):
     return r
 
 
+def rule_strong_links(ctx, rid="R6.5w"):
+    """Absolute paths are computed *through* the parent link at the time they are read -- after validation, when the caller may
+    hold nothing but the context error (best_match returns one; so does `[c for e in errors for c in e.context]`).  The link
+    must therefore keep the parent alive: a weak reference turns absolute_path into the relative one once the parent is gone."""
+    prog = ctx.prog
+    r = ctx.rule(rid, "an error's parent and context links are ordinary (strong) references", floor=1)
+    m = prog.mod("exceptions")
+    E = prog.cls("exceptions._Error")
+    weak = [n for n in ast.walk(m.tree) if isinstance(n, ast.Call) and ("weakref" in norm(n.func) or norm(n.func).split(".")[-1] in ("ref", "proxy", "WeakValueDictionary", "WeakSet", "finalize")
+                                                                     and "weakref" in " ".join(norm(i) for i in ast.walk(m.tree) if isinstance(i, (ast.Import, ast.ImportFrom))))]
+    props = [name for name, f in E.methods.items() if name in ("parent", "context") and any(norm(d) == "property" or norm(d).endswith(".setter") for d in f.decorators)]
+    if weak:
+        r.fail("exceptions|weak-link|%s" % norm(weak[0])[:40], "jsonschema/exceptions.py:%d" % weak[0].lineno,
+               "`%s`: errors are linked through a weak reference; once the parent error is collected its context errors report relative paths as absolute" % norm(weak[0])[:50])
+    elif props:
+        r.fail("exceptions._Error|computed-link|%s" % props[0], site(E.methods[props[0]]),
+               "_Error.%s is a computed property, not the stored reference the constructor sets: the link between an error and its parent is no longer a plain attribute" % props[0])
+    else:
+        r.ok("jsonschema/exceptions.py _Error", "parent/context are plain attributes; the module uses no weak references")
+    return r
+
+
 def run(ctx):
     ctx.explanation = (
         "C06 is checked where the bookkeeping is done: at each descend call site symbolic provenance terms (index/key of "
@@ -533,6 +555,7 @@ def run(ctx):
     rule_context_is_list(ctx)
     rule_handmade_errors(ctx)
     rule_json_path(ctx)
+    rule_strong_links(ctx)
     # R14.*: "stepping through every $ref met on the way to the schema it designates": the designated schema is the one RFC 6901
     # names, which is what the recorded subschema and keyword value are compared with
     from . import c14
@@ -541,3 +564,7 @@ def run(ctx):
     # index/key of the part and of the subschema that produced it (the semantic twin of the provenance rules R6.1/R6.2)
     from .applic import rule_applicators
     rule_applicators(ctx, "R6.9", "paths")
+    # R6.10: "following the absolute schema path from the root schema": a same-document reference designates the schema in
+    # hand, i.e. the referrer is filed last under its base URI, over anything a caller's store holds for that URI
+    from .c15 import rule_seeding
+    rule_seeding(ctx, "R6.10")
